@@ -25,7 +25,8 @@ def handleEq (ws : List String) : String :=
       match (rest.take k).mapM xtokOfWord, xOfWords (rest.drop k) with
       | some ts, some ir =>
         let g := gen C false ir
-        let common := "flatir=" ++ b01 (decide (flat ir = ts)) ++ " knownir=" ++ b01 (known C ir)
+        let common := "flatir=" ++ b01 (decide (flat ir = ts)) ++ " irok=" ++ b01 (okAt true ir)
+          ++ " vflat=" ++ b01 (validateFlat P ts ir).isSome ++ " knownir=" ++ b01 (known C ir)
           ++ " compile=" ++ (match compile C ir with | some _ => "text" | none => "raise")
         let tail := "\t" ++ wordsOfToks g ++ "\t" ++ parseSexp g
         match xparse P ts with
